@@ -180,6 +180,16 @@ def check_message(side, r, got):
 		msg = got
 	if bytes(msg.body) != r.body:
 		bad.append('body %r != %r' % (bytes(msg.body)[:40], r.body[:40]))
+	else:
+		# the delivered body as an application reads it: through the file interface, from the start, and piece by piece
+		try:
+			first = msg.body.read()
+			msg.body.seek(0)
+			again = b''.join(msg.body)
+			if first != r.body or again != r.body:
+				bad.append('the delivered body reads as %r through read() and %r when iterated, sent %r' % (first[:40], again[:40], r.body[:40]))
+		except Exception as e:
+			bad.append('reading the delivered body raised %s: %s' % (exc_name(e), e))
 	gh = {k.lower().encode(): v for k, v in dict.items(msg.headers)}
 	eh = expected_headers(r)
 	if gh != eh:
